@@ -111,6 +111,11 @@ class Ctx:
             root.setLevel(logging.DEBUG)
             if not any(isinstance(h, logging.NullHandler) for h in root.handlers):
                 root.addHandler(logging.NullHandler())
+            # ... in a process started with warnings as errors (`python -W error`, pytest filterwarnings=error),
+            # restricted to warnings attributed to the library's own modules so that third-party deprecations
+            # cannot disturb the harness
+            import warnings
+            warnings.filterwarnings("error", module=r"chuk_mcp(\..*)?$")
 
     # -- sharding ---------------------------------------------------------
     def mine(self) -> bool:
@@ -162,7 +167,7 @@ class Ctx:
         if self.backend:
             message = f"[{self.backend} backend] {message}"
         if self.loglevel == "debug":
-            message = f"[DEBUG logging] {message}"
+            message = f"[DEBUG logging, warnings from chuk_mcp modules are errors] {message}"
         self.violations.append({
             "mechanism": mechanism,
             "message": message,
